@@ -1,6 +1,7 @@
 package PVM
 
 import (
+	"math"
 	"math/bits"
 
 	"github.com/New-JAMneration/JAM-Protocol/internal/types"
@@ -17,6 +18,12 @@ func Psi_M(
 ) (
 	psi_result Psi_M_ReturnType,
 ) {
+	// the machine's gas counter is a signed 64-bit value: a limit above 2^63-1 can never be spent, so it is
+	// clamped instead of being converted to a negative counter (which reported out-of-gas at once)
+	if gas > math.MaxInt64 {
+		gas = math.MaxInt64
+	}
+
 	programCode, registers, memory, exitReason := SingleInitializer(code, argument)
 	// Y(p) = nil
 	if exitReason != ExitContinue {
